@@ -28,7 +28,8 @@ SUBJECTS = ["A", "B"]
 OBJECTS = ["A", "B", "Lempty", "Lx"]
 NODES = ["A", "B", "Lempty", "Lx"]
 ABSENT = "Z"
-ATOMS = [("iri", "P"), ("iri", "Q"), ("neg", ["P"], []), ("neg", ["P", "Q"], []), ("neg", [], ["P"]), ("neg", ["P"], ["Q"])]
+ATOMS = [("iri", "P"), ("iri", "Q"), ("inv", ("iri", "P")), ("inv", ("iri", "Q")),
+         ("neg", ["P"], []), ("neg", ["P", "Q"], []), ("neg", [], ["P"]), ("neg", ["P"], ["Q"])]
 
 
 def paths_of_depth(d):
@@ -219,12 +220,17 @@ def check_case(config, triples, p, s, o, g=None, rp=None, memo=None, api="triple
     return None
 
 
+def ends_reduced():
+    terms = NODES + [ABSENT]
+    return [(None, None)] + [(s, None) for s in terms] + [(None, o) for o in terms] + [(s, s) for s in terms]
+
+
 def _batch(arg):
-    config, graphs, paths, apis = arg
+    config, graphs, paths, apis = arg[:4]
     viols = []
     n = 0
     nontriv = 0
-    E = ends()
+    E = ends_reduced() if (len(arg) > 4 and arg[4] == "reduced-ends") else ends()
     rpaths = [(p, to_rdflib(p)) for p in paths]
     for triples in graphs:
         g = build(config, triples)
@@ -257,16 +263,24 @@ def run(ctx):
     jobs = ctx.jobs
     # depth <= 1 on all graphs with <= 3 triples, plain Graph, all three APIs
     for sh in R.shards(g3, jobs * 4):
-        work.append(("graph", sh, d1, ["triples", "subjects", "objects"]))
+        work.append(("graph", sh, d1, ["triples"] + (["subjects", "objects"] if thorough else [])))
+    if not thorough:
+        for sh in R.shards(g2, jobs * 2):
+            work.append(("graph", sh, d1, ["subjects", "objects"]))
+    # closures (* + ?) over every depth-1 path on all graphs with <= 3 triples (the traversal code is where graph shape matters)
+    d1_nonatom = [p for p in d1 if p not in ATOMS]
+    closures = [(op, e) for e in d1_nonatom for op in ("star", "plus", "opt")]
+    for sh in R.shards(g3, jobs * 6):
+        work.append(("graph", sh, closures, ["triples"]) + (() if thorough else ("reduced-ends",)))
     # union dataset and aggregate: depth <= 1 on graphs with <= 2 (q) / 3 (t) triples
     for cfg in ("dataset-union", "aggregate"):
         for sh in R.shards(g3 if thorough else g2, jobs * 2):
             work.append((cfg, sh, d1, ["triples"]))
     # depth 2 on a fixed family of graphs
-    fam = [g for g in g3 if len(g) == 3][:: (5 if thorough else 47)] + [g for g in g2 if len(g) == 2][:: (3 if thorough else 17)]
+    fam = [g for g in g3 if len(g) == 3][:: (13 if thorough else 139)] + [g for g in g2 if len(g) == 2][:: (7 if thorough else 41)]
     for gsh in R.shards(fam, len(fam)):
-        for psh in R.shards(d2, 8 if thorough else 4):
-            work.append(("graph", gsh, psh, ["triples"]))
+        for psh in R.shards(d2, 16 if thorough else 8):
+            work.append(("graph", gsh, psh, ["triples"]) + (() if thorough else ("reduced-ends",)))
     # SPARQL slice: depth <= 1 x a family of graphs
     sp = [g for g in g3 if len(g) in (2, 3)][:: (11 if thorough else 61)]
     for gsh in R.shards(sp, len(sp)):
@@ -278,13 +292,14 @@ def run(ctx):
         ctx.add("distinct_nontrivial", nt)
     ctx.cov["paths_depth1"] = len(d1)
     ctx.cov["paths_depth2"] = len(d2)
+    ctx.cov["closures_over_depth1_on_all_graphs"] = len(closures)
     ctx.cov["graphs_upto3"] = len(g3)
     ctx.cov["depth2_graph_family"] = len(fam)
     ctx.cov["sparql_graph_family"] = len(sp)
     ctx.cov["exhaustive"] = True
-    ctx.cov["rule"] = ("Paths: atoms {P, Q, !P, !(P|Q), !^P, !(P|^Q)} closed under ^ * + ? / | to operator depth 1 (%d paths) on every graph with <=3 triples over "
+    ctx.cov["rule"] = ("Paths: atoms {P, Q, ^P, ^Q, !P, !(P|Q), !^P, !(P|^Q)} closed under ^ * + ? / | to operator depth 1 (%d paths) on every graph with <=3 triples over "
                        "subjects {A,B} x {P,Q} x objects {A,B,\"\",\"x\"} (%d graphs) x 36 end bindings (5 terms incl. an absent one, both ends), through "
-                       "Graph.triples/subjects/objects, union Dataset and ReadOnlyGraphAggregate; depth 2 (%d paths) on a fixed family of %d graphs; SPARQL "
+                       "Graph.triples/subjects/objects, union Dataset and ReadOnlyGraphAggregate; every closure of a depth-1 path on all those graphs; depth 2 (%d paths) on a fixed family of %d graphs; SPARQL "
                        "SELECT on %d graphs. Oracle: relation algebra. Non-trivial: non-empty relation or a falsy/absent bound end." % (
                            len(d1), len(g3), len(d2), len(fam), len(sp)))
     ctx.sample({"path": ["graph", [["A", "P", "Lempty"]], ["plus", ["iri", "P"]], "A", "Lempty", "triples"]})
